@@ -586,7 +586,7 @@ class Fxp():
             val_max = int(np.max(val)*(1 << n_frac))
             val_min = int(np.min(val)*(1 << n_frac))
             n_int = 0
-            while n_int < n_word_max - sign:
+            while n_int < n_word_max - sign + n_frac:     # (bits of the value scaled by 2**n_frac)
                 msb_max = (val_max >> n_int) + (1 if val_max < 0 else 0)
                 msb_min = (val_min >> n_int) + (1 if val_min < 0 else 0)
 
